@@ -18,7 +18,7 @@ RULE = (
     "with >= 2 calls on the same (position,state) separated by other calls, and a jit and a vmap call; "
     "distinct by (program, history) hash"
 )
-REQUIRED = ["result_equals_spec_evaluation", "result_equals_direct_assignment", "history_independent",
+REQUIRED = ["realistic_log_prob_vs_oracle", "result_equals_spec_evaluation", "result_equals_direct_assignment", "history_independent",
             "input_state_unchanged", "user_model_unchanged", "extract_returns_position",
             "log_prob_equals_model", "jit_equals_eager", "vmap_equals_eager", "simple_interface_laws"]
 ANCHORS = ["goose/interface.py:LieselInterface.update_state", "goose/interface.py:LieselInterface.extract_position",
@@ -375,11 +375,98 @@ def case_simple(case, res):
     res.sample = {"interface": kind, "calls": case["n_calls"]}
 
 
+def case_realistic(case, res):
+    """Generated statistical models (transformed variables, degenerate-MVN priors, weak variables with
+    distributions): the interface's log-probability against the float64 scipy oracle, the direct-assignment
+    twin, jit and vmap."""
+    import jax
+    import jax.numpy as jnp
+    import liesel.goose as gs
+
+    from vlib import statmodels as sm
+
+    rng = rng_for(case["seed"], "c03-real", case["idx"])
+    desc = sm.gen_model(rng)
+    desc["user"] = {}
+    vals0 = sm.initial_values(desc, rng)
+    A = sm.build(desc, initial=vals0)
+    B = sm.build(desc, initial=vals0)
+    iface = gs.LieselInterface(A.model)
+    S0 = A.model.state
+    user_before = state_bytes(S0)
+    items = [it for it in desc["items"] if it["t"] == "var"]
+    states = [(S0, dict(vals0))]
+    jit_update = jax.jit(iface.update_state)
+    w = {"families": [(it["name"], it["fam"], it.get("transform", False)) for it in items]}
+    for step in range(case["n_calls"]):
+        k = int(rng.integers(1, len(items) + 1))
+        chosen = [items[int(i)] for i in rng.choice(len(items), size=k, replace=False)]
+        si = int(rng.integers(len(states)))
+        S, vals = states[si]
+        new_vals = dict(vals)
+        pos, keyinfo = {}, []
+        for it in chosen:
+            v = sm.draw_value(rng, it["fam"], tuple(it["shape"]))
+            new_vals[it["name"]] = v
+            if it["name"] in A.transformed:
+                tv = A.transformed[it["name"]]
+                key = tv.name if rng.random() < 0.5 else tv.value_node.name
+                pos[key] = jnp.asarray(sm.to_unconstrained(sm.bij_kind(it), v), A.ft)
+            else:
+                var = A.objs[it["name"]]
+                key = var.name if rng.random() < 0.5 else var.value_node.name
+                pos[key] = jnp.asarray(v, A.ft)
+            keyinfo.append(key)
+        o = sm.oracle(desc, new_vals)
+        if o["min_p"] < 1e-5:
+            res.skip("saturated Bernoulli probability")
+            continue
+        before = state_bytes(S)
+        mode = "jit" if step % 4 == 3 else "eager"
+        out = (jit_update if mode == "jit" else iface.update_state)(pos, S)
+        res.mon("realistic_log_prob_vs_oracle")
+        lp = iface.log_prob(out)
+        tol = 5e-4 + 2e-5 * o["abs_terms"] + 2.4e-7 * o["cond"]
+        if lp is None or not np.isfinite(float(lp)) or abs(float(lp) - o["log_prob"]) > tol:
+            res.violation("log-prob", f"{mode} update_state on a generated statistical model: interface.log_prob = {lp}, joint "
+                          f"density at those values = {o['log_prob']} (keys {keyinfo})", w)
+            break
+        if mode == "eager":
+            B.model.auto_update = False
+            B.model.state = S
+            for key in keyinfo:
+                if key in B.model.vars:
+                    B.model.vars[key].value = pos[key]
+                else:
+                    B.model.nodes[key].value = pos[key]
+            B.model.update()
+            res.mon("result_equals_direct_assignment")
+            ok, why = states_close({k_: v_.value for k_, v_ in B.model.state.items()}, {k_: v_.value for k_, v_ in out.items()}, exact=True)
+            if not ok:
+                res.violation("differs-from-direct-assignment", f"realistic model: {why}", w)
+                break
+            got = iface.extract_position(list(pos), out)
+            res.mon("extract_returns_position")
+            if any(not arr_equal_bits(np.asarray(got[k_]), np.asarray(pos[k_])) for k_ in pos):
+                res.violation("extract-position", "realistic model: extract_position(update_state(p,S)) != p", w)
+            states.append((out, new_vals))
+        res.mon("input_state_unchanged")
+        if state_bytes(S) != before:
+            res.violation("input-state-mutated", f"{mode} update_state changed its input state (realistic model)", w)
+        res.mon("user_model_unchanged")
+        if state_bytes(A.model.state) != user_before:
+            res.violation("user-model-mutated", "update_state changed the user's model (realistic model)", w)
+    res.nontriv(("real", case["idx"]))
+    res.sample = dict(w, kind="realistic")
+
+
 def run_case(case):
     res = CaseResult(case)
     res.evals = 1
     try:
-        if case["kind"] == "liesel":
+        if case["kind"] == "realistic":
+            case_realistic(case, res)
+        elif case["kind"] == "liesel":
             case_liesel(case, res)
         else:
             case_simple(case, res)
@@ -395,6 +482,8 @@ def gen_cases(tier, seed):
     q = tier == "quick"
     cases = [{"kind": "liesel", "idx": i, "seed": seed, "n_calls": 30 if q else 60, "cost": 3}
              for i in range(200 if q else 2000)]
+    for i in range(40 if q else 600):
+        cases.append({"kind": "realistic", "idx": 50000 + i, "seed": seed, "n_calls": 12 if q else 25, "cost": 4})
     for i in range(30 if q else 300):
         cases.append({"kind": "simple", "iface": ["dict", "dataclass", "namedtuple"][i % 3], "idx": i,
                       "seed": seed, "n_calls": 25, "cost": 1})
